@@ -703,8 +703,11 @@ static int btcp_receive(struct xcm_socket *__restrict s, void *__restrict buf,
 	    bts->conn.badness_reason = errno;
 	}
     } else if (rc == 0) {
-	LOG_RCV_EOF(s);
-	BTCP_SET_STATE(s, conn_state_closed);
+	/* a zero-capacity recv() returns 0 without the peer having closed */
+	if (capacity > 0) {
+	    LOG_RCV_EOF(s);
+	    BTCP_SET_STATE(s, conn_state_closed);
+	}
     } else {
 	LOG_RCV_DATA(s, rc);
 	XCM_TP_CNT_MSG_INC(bts->conn.cnts, from_lower, rc);
